@@ -188,6 +188,11 @@ def runApp (c : Case) : Res :=
         let extraSecs := implSecs.filter (fun (x : ImplSec) => !(ms.any (fun m => m.1 == x.sec)))
         let oracleFails := results.flatMap (fun r => r.oracles)
         let oracleFails := oracleFails ++ (match c08fail with | some m => [("C08", m)] | none => [])
+        -- a rejection for a reason C04 does not list: the duplicate-split heuristic of splits.rs
+        let oracleFails := oracleFails ++ (implSecs.filterMap (fun (x : ImplSec) =>
+          if x.outcome == "err" && (x.msg.splitOn "near global split").length > 1 then
+            some ("C04", s!"security {x.sec}: rejected by the probable-duplicate-split heuristic (a split for all affiliates within a day of an affiliate-specific one), which is not among the reasons a possible history may be rejected for")
+          else none))
         let diffs := results.filterMap (fun r => r.diff)
         let diffs := diffs ++ extraSecs.map (fun x => ("dk=rows", s!"security {x.sec}: only in the implementation's result"))
         let nErr := (results.filter (fun r => r.fail.isSome)).length
